@@ -719,7 +719,11 @@ where
             }
         }
         for r in ctx.new_records_since(&lens) {
-            if r.complete {
+            if r.complete && matches!(result, OpResult::Err(_)) && base_phase(&plan, si) == Some("fault") {
+                // C11: an operation that returned an error must never be served as if it had succeeded
+                ctx.forbidden_records.borrow_mut().insert((r.blob, r.offset));
+                world.probe("complete_record_of_failed_op");
+            } else if r.complete {
                 ctx.optional_records.borrow_mut().insert((r.blob, r.offset));
                 world.probe("optional_record_from_failed_or_cancelled_op");
             } else if matches!(result, OpResult::Cancelled { .. }) && r.bytes_written > 0 {
